@@ -28,6 +28,11 @@ VARIANTS = [
     V("double-derivative-graph", A, "            grad_outputs=g,\n            allow_unused=True,\n            create_graph=True\n", "            grad_outputs=g,\n            allow_unused=True,\n            create_graph=requires_grad\n", rule="R11.2"),
     V("always-create-graph", A, "    def _g_prod(self, g_prod, y, adj_y, requires_grad):\n        vjp_y_and_params = misc.vjp(\n            outputs=g_prod,\n            inputs=[y] + self.params,\n            grad_outputs=adj_y,\n            allow_unused=True,\n            retain_graph=True,\n            create_graph=requires_grad\n",
       "    def _g_prod(self, g_prod, y, adj_y, requires_grad):\n        vjp_y_and_params = misc.vjp(\n            outputs=g_prod,\n            inputs=[y] + self.params,\n            grad_outputs=adj_y,\n            allow_unused=True,\n            retain_graph=True,\n            create_graph=True\n", rule="R11"),
+    # the defect repaired by 614b9af: a detached weight inside a returned block (value right, derivative wrong)
+    V("milstein-weight-detached-again", A, "                grad_outputs=adj_y * v2 * g,\n", "                grad_outputs=(adj_y * v2 * g).detach(),\n", rule="R11.6"),
+    V("drift-detached-in-grad-mode", A, "        return misc.flatten((-f, *vjp_y_and_params)).unsqueeze(0)\n\n    def _f_corrected_default",
+      "        return misc.flatten((-f.detach(), *vjp_y_and_params)).unsqueeze(0)\n\n    def _f_corrected_default", rule="R11.6"),
+    V("milstein-dgdy-single-graph", A, "                create_graph=True  # Differentiated again below.\n", "                create_graph=requires_grad\n", rule="R11.2"),
     V("detach-idiom-removed", A, "        if not requires_grad:\n            # See corresponding note in _f_uncorrected.\n            g_prod = g_prod.detach()\n", "", rule="R11"),
     V("stub-g-returns", A, "        raise RuntimeError(\"Adjoint `g` not defined. Please report a bug to torchsde.\")", "        return self.forward_sde.g(-t, y)", rule="R11.4"),
     V("leaf-assert-removed", A, "        assert y_aug.is_leaf, \"Internal error: please report a bug to torchsde\"\n", "", rule="R11.5"),
